@@ -104,9 +104,9 @@ def dead_call(b, c):
 def _function_signature(b):
     from sigtools import signatures
     from vlib import expect
-    if b.prog['route'] in ('self_method', 'self_attr', 'classmethod_cls'):
+    if b.prog['route'] in ('self_method', 'self_attr', 'classmethod_cls', 'self_shadow_nested'):
         return signatures.signature(b.target.__func__)
-    if b.prog['route'] == 'param':
+    if b.prog['route'] in ('param', 'param_shadow_lambda'):
         return signatures.signature(b.target.func)
     return expect._own_def_signature(b.wfunc) if hasattr(b.wfunc, '__code__') else signatures.signature(b.wfunc)
 
@@ -142,9 +142,9 @@ def calls_role_inconsistent(b):
     from sigtools import signatures
     from vlib import expect
     try:
-        if b.prog['route'] in ('self_method', 'self_attr', 'classmethod_cls'):
+        if b.prog['route'] in ('self_method', 'self_attr', 'classmethod_cls', 'self_shadow_nested'):
             fsig = signatures.signature(b.target.__func__)
-        elif b.prog['route'] == 'param':
+        elif b.prog['route'] in ('param', 'param_shadow_lambda'):
             fsig = signatures.signature(b.target.func)
         else:
             fsig = expect._own_def_signature(b.wfunc) if hasattr(b.wfunc, '__code__') else signatures.signature(b.wfunc)
